@@ -1,7 +1,7 @@
 SPECIFICATION Spec
 CONSTANT Focuses = {"general", "mods", "params", "qubits", "meas"}
 CONSTANT MaxGeneral = 2
-CONSTANT MaxSmall = 2
+CONSTANT MaxSmall = 3
 CONSTANT MaxMeas = 2
 CONSTANT GeneralNames = {"RX"}
 INVARIANT GateRefines
